@@ -220,7 +220,9 @@ def escapeQuotes(text: str) -> str:
 
 
 def strToIntOrFloat(inputStr: str) -> float:
-    return float(inputStr) if "." in inputStr else int(inputStr)
+    # Small and large numbers may be written in exponent notation (1e-05)
+    isFloat = any(char in inputStr for char in ".eE")
+    return float(inputStr) if isFloat else int(inputStr)
 
 
 def getValueAtTime(
